@@ -59,8 +59,9 @@ impl Matcher for NoUserMatcher {
     fn matches(&self, file_info: &WalkEntry, _: &mut MatcherIO) -> bool {
         use nix::unistd::Uid;
 
+        // (an entry whose status cannot be read is diagnosed, not matched)
         let Ok(metadata) = file_info.metadata() else {
-            return true;
+            return false;
         };
 
         let Ok(uid) = User::from_uid(Uid::from_raw(metadata.uid())) else {
